@@ -155,12 +155,20 @@ func showDelivered(pkg interface{}, garbage bool) string {
 // handleTCPPackage does: append to the buffer; while the buffer is non-empty call Read; error ->
 // close the session; pkg == nil -> wait for more; else deliver and advance by pkgLen.
 func driveRead(chunks [][]byte, garbage bool) (obs string, delivered []string, rest int, closed bool, crash string, spin bool) {
-	h := &sgetty.RpcPackageHandler{}
+	return driveReadOn(&sgetty.RpcPackageHandler{}, chunks, garbage, nil)
+}
+
+// driveReadOn: as driveRead, on a given handler; between is called before every chunk (another stream's turn on
+// the same handler: the client hands ONE handler to all its sessions)
+func driveReadOn(h *sgetty.RpcPackageHandler, chunks [][]byte, garbage bool, between func()) (obs string, delivered []string, rest int, closed bool, crash string, spin bool) {
 	var buf []byte
 	crash = safeCall(func() {
 		for _, c := range chunks {
 			if closed {
 				break
+			}
+			if between != nil {
+				between()
 			}
 			buf = append(buf, c...)
 			iter := 0
@@ -304,7 +312,30 @@ func runC13(c *Ctx) {
 		} else if spin {
 			class = "spin"
 		}
-		c.Out.Oracle(cid, ok, class, fmt.Sprintf("fed=%d of %d bytes in %d chunks; delivered=%d want=%d rest=%d closed=%v crash=%s", fed, streamLen, len(chunks), len(delivered), len(want), rest, closed, crash))
+		if ok && len(chunks) > 1 {
+			// the same stream once more on a handler that serves ANOTHER session in between (a complete heart-beat
+			// frame of that session before every chunk): nothing the handler remembers of one session's unfinished
+			// frame may be applied to the other's bytes, and the other way round
+			shared := &sgetty.RpcPackageHandler{}
+			otherOK := true
+			ping := []byte{0xda, 0xda, 0x01, 0x00, 0x00, 0x00, 0x10, 0x00, 0x10, 0x03, 0x01, 0x00, 0x00, 0x00, 0x00, 0x07}
+			between := func() {
+				if safeCall(func() {
+					if pkg, n, err := shared.Read(nil, ping); err != nil || pkg == nil || n != len(ping) {
+						otherOK = false
+					}
+				}) != "" {
+					otherOK = false
+				}
+			}
+			obs2, _, _, _, _, _ := driveReadOn(shared, chunks, false, between)
+			if obs2 != obs || !otherOK {
+				ok, class = false, "sessions_share_reader_state"
+				obs = fmt.Sprintf("alone: %s | with another session's frames in between: %s (the other session's complete frames read: %v)", obs, obs2, otherOK)
+			}
+			c.Out.Count("interleaved-with-another-session")
+		}
+		c.Out.Oracle(cid, ok, class, fmt.Sprintf("fed=%d of %d bytes in %d chunks; delivered=%d want=%d rest=%d closed=%v crash=%s %s", fed, streamLen, len(chunks), len(delivered), len(want), rest, closed, crash, map[bool]string{true: "", false: obs}[ok]))
 		nt := 0
 		if len(chunks) > 1 && len(fs) > 0 {
 			nt = 1
